@@ -62,7 +62,12 @@ package receiver
 //@   requires[C10] [not-dry-run] !rt.Opts.DryRun
 //@   requires [basis-root] localFile == nil || fileRoot(localFile) == rt.DestRoot
 //@   nullable localFile
-//@   modifies *
+//@   modifies *, ghost.renames, ghost.acc, ghost.cleaned, ghost.created, ghost.lastPending, ghost.objClock
+
+//@ func (*receiver.Transfer).recvFile1
+//@   modifies *, ghost.renames, ghost.acc, ghost.cleaned, ghost.created, ghost.lastPending, ghost.objClock
+//@   ensures[C03] [rename-or-error] err == nil && !old(rt.Opts.DryRun) ==> ghost.renames == old(ghost.renames) + 1
+//@   ensures[C03] [dry-run-renames-nothing] old(rt.Opts.DryRun) ==> ghost.renames == old(ghost.renames)
 
 //@ func (*receiver.Transfer).createDevice
 //@   requires[C10] [not-dry-run] !rt.Opts.DryRun
